@@ -313,7 +313,7 @@ func init() {
 	Register(Spec[c28In]{
 		ID: "C28", Suite: "seq", CoqImports: []string{"Common.BytesUtil", "Check.C28"},
 		CoqType: "list byte", CoqRun: "Check.C28.run",
-		Quick: 96, Thorough: 2400, Parallel: 8,
+		Quick: 96, Thorough: 800, Parallel: 8,
 		Corpus: func() []c28In {
 			return []c28In{
 				// 30 fps video at 90 kHz: 33.333333 ms = 2999.99997 ticks, the remainder must carry
@@ -343,7 +343,7 @@ var c28GenLong = func(r *Rand, i int) c28In {
 	// one duration repeated many times: the case where rounding could accumulate
 	s := c28Sample{D: Pick(r, c28Durations[:10]), L: r.Range(1, 1500)}
 	n := 20000
-	if i >= 12 { // thorough tier only
+	if i >= 12 && i < 30 { // thorough tier only
 		n = 100000
 	}
 	if c28Cfgs[in.Cfg].cap.ClockRate > 1000000 {
